@@ -254,6 +254,38 @@ type c10Case struct {
 	isRandom    bool
 }
 
+// c10FirstPNLen: the encoding length of the flight's first packet number.
+func c10FirstPNLen(lens []int, single int, ipn uint64) int {
+	switch {
+	case len(lens) > 0:
+		return lens[0]
+	case single != 0:
+		return single
+	case ipn+1 < 1<<15:
+		return 2
+	case ipn+1 < 1<<23:
+		return 3
+	}
+	return 4
+}
+
+// c10BRandom: the model's view of a QUICRandomFrames per datagram: (Length, MinPADDING,
+// largest PING count, largest CRYPTO count) -- counts are drawn from [Min, Max), or are Min
+// when the range is empty.
+func c10BRandom(rfs ...quic.QUICRandomFrames) string {
+	mc := func(lo, hi uint8) int64 {
+		if hi <= lo {
+			return int64(lo)
+		}
+		return int64(hi) - 1
+	}
+	var l []string
+	for _, rf := range rfs {
+		l = append(l, u.Pair(u.Z(int64(rf.Length)), u.Z(int64(rf.MinPADDING)), u.Z(mc(rf.MinPING, rf.MaxPING)), u.Z(mc(rf.MinCRYPTO, rf.MaxCRYPTO))))
+	}
+	return u.App("BRandom", u.List(l))
+}
+
 func c10Hello(r *u.Rng, n int) []byte {
 	b := r.Bytes(n)
 	// make every byte non-zero so that trailing PADDING can be told from CRYPTO data
@@ -298,6 +330,16 @@ func c10GenCase(r *u.Rng) *c10Case {
 	if r.Bool() {
 		c.single = r.Range(0, 4)
 	}
+	// Only specs that UTransport.dial accepts reach the packer (InitialPacketSpec.validate):
+	// the first packet number is a packet number and fits the bytes it is encoded in.
+	// (What dial refuses is the subject of the ValidateCases.)
+	c.ipn &= 1<<62 - 1
+	if fl := c10FirstPNLen(c.lens, c.single, c.ipn); c.ipn >= 1<<(8*uint(fl)) {
+		c.ipn &= 1<<(8*uint(fl)) - 1
+		if len(c.lens) == 0 && c.single == 0 { // default length: depends on the number itself
+			c.ipn &= 1<<15 - 1
+		}
+	}
 	switch r.Intn(7) {
 	case 0:
 		c.ctl = r.Range(1, 90)
@@ -319,7 +361,7 @@ func c10GenCase(r *u.Rng) *c10Case {
 	c.maxSize = int(r.Pick(1200, 1252, 1280, 1280, 1280, 1350, 1452))
 	c.udpMin = 0
 	if r.Chance(1, 3) {
-		c.udpMin = int(r.Pick(1, 600, 1200, 1250, 1280, 1357, 1452))
+		c.udpMin = int(r.Pick(1200, 1200, 1250, 1280, 1357, 1452))
 	}
 	hl := r.Range(200, 4000)
 	switch r.Intn(6) {
@@ -342,7 +384,7 @@ func c10GenCase(r *u.Rng) *c10Case {
 				}
 			}
 			if r.Chance(2, 3) {
-				p.PacketSize = min(c.maxSize, int(r.Pick(1200, 1200, 1232, 1252, 1280, int64(c.maxSize))))
+				p.PacketSize = min(c.maxSize, int(r.Pick(1200, 1200, 1232, 1252, 1280, int64(c.maxSize)))) // in [1200, maxSize]: what dial accepts
 			}
 			c.plans = append(c.plans, p)
 		}
@@ -386,11 +428,11 @@ func c10GenCase(r *u.Rng) *c10Case {
 	case 3:
 		rf := rnd()
 		c.isRandom = true
-		c.bk, c.builder, c.check = u.App("BRandom", u.Z(int64(rf.Length)), u.Z(int64(rf.MinPADDING))), rf, rf
+		c.bk, c.builder, c.check = c10BRandom(*rf), rf, rf
 	case 4:
 		m := &quic.QUICMultiDatagramFrames{PerDatagram: []quic.QUICRandomFrames{*rnd(), *rnd()}}
-		c.proxy = &c10Proxy{inner: m}
-		c.bk, c.builder, c.check = "BEx", c.proxy, m
+		c.isRandom = true
+		c.bk, c.builder, c.check = c10BRandom(m.PerDatagram...), m, m
 	case 5:
 		c.custom = &c10Custom{extra: extra(), pings: r.Range(0, 2), failAt: failAt}
 		c.bk, c.builder = "BPlain", c.custom
@@ -477,7 +519,14 @@ func c10RunCase(w *bufio.Writer, rep *c10Reporter, c *c10Case, dist map[string]i
 			raw = append(raw, d.Data)
 		}
 	}
-	e := &c10Expect{Name: "upacker", Spec: sp, MaxPacket: c.maxSize, ConfToken: c.conf, ExplTokSet: c.explSet, ExplToken: c.expl,
+	expSpec := sp
+	if c.udpMin > 1452 {
+		// dial refuses such a spec; the packer's backstop pads to the buffer's capacity
+		cp := *sp
+		cp.UDPDatagramMinSize = 1452
+		expSpec = &cp
+	}
+	e := &c10Expect{Name: "upacker", Spec: expSpec, MaxPacket: c.maxSize, ConfToken: c.conf, ExplTokSet: c.explSet, ExplToken: c.expl,
 		HelloLen: len(c.hello), Hello: c.hello, CheckBuilder: c.check, HasCheckBuilder: true}
 	var recs []c10BuildRec
 	if c.custom != nil {
@@ -677,23 +726,27 @@ func c10Targeted(r *u.Rng) []*c10Case {
 	c.udpMin = 1500
 	c.desc = " [targeted: UDPDatagramMinSize 1500]"
 	out = append(out, c)
-	// (c) PacketSize above the connection's maximum packet size but inside the buffer
+	// (c) PacketSize alone (no CryptoLength) with a ClientHello longer than one packet
 	c = base()
-	c.plans = []quic.InitialPacketPlan{{PacketSize: 1400}}
-	c.desc = " [targeted: PacketSize 1400 > max packet size 1280]"
+	c.hello = c10Hello(r, 1734)
+	c.plans = []quic.InitialPacketPlan{{PacketSize: 1232}}
+	c.desc = " [targeted: nil builder, PacketSize 1232, 1734-byte ClientHello]"
 	out = append(out, c)
-	// (d) packet-number lengths with InitPacketNumber beyond 2^62-1
-	for _, ipn := range []uint64{1 << 62, 1<<64 - 1, 1 << 63} {
+	// (d) Chrome_146's shape: many CRYPTO frames, Length 1215, two datagrams
+	for i := 0; i < 6; i++ {
 		c = base()
-		c.ipn, c.single, c.lens = ipn, 0, []int{1, 2, 3}
-		c.desc = " [targeted: InitPacketNumber beyond 2^62-1 with a length list]"
+		c.hello = c10Hello(r, 1734)
+		c.lens, c.single = []int{1, 2}, 0
+		rf := &quic.QUICRandomFrames{MinPING: 1, MaxPING: 4, MinCRYPTO: 6, MaxCRYPTO: 14, MinPADDING: 2, MaxPADDING: 6, Length: 1215}
+		c.isRandom = true
+		c.bk, c.builder, c.check = c10BRandom(*rf), rf, rf
+		if i >= 4 {
+			m := &quic.QUICMultiDatagramFrames{PerDatagram: []quic.QUICRandomFrames{*rf, {MinPING: 0, MaxPING: 2, MinCRYPTO: 12, MaxCRYPTO: 13, MinPADDING: 1, MaxPADDING: 3, Length: 1100}}}
+			c.bk, c.builder, c.check = c10BRandom(m.PerDatagram...), m, m
+		}
+		c.desc = " [targeted: Chrome_146-shaped random builder]"
 		out = append(out, c)
 	}
-	// (e) first packet number 2^62-1: the second packet number is 2^62
-	c = base()
-	c.ipn, c.single, c.lens = 1<<62-1, 0, []int{4}
-	c.desc = " [targeted: InitPacketNumber 2^62-1, two datagrams]"
-	out = append(out, c)
 	// (f) flight builder filling exactly the offered budget while the packet number grows
 	c = base()
 	c.lens, c.single = []int{1, 4}, 0
@@ -714,8 +767,7 @@ func c10Targeted(r *u.Rng) []*c10Case {
 	cx := &c10CustomEx{c10Custom{failAt: -1}}
 	c.custom = &cx.c10Custom
 	c.bk, c.builder = "BEx", cx
-	c.udpMin = 1
-	c.desc = " [targeted: 3-byte frame payload, 1-byte packet number]"
+	c.desc = " [targeted: 4-byte frame payload, 1-byte packet number]"
 	out = append(out, c)
 	// (h) exact size: frames that just fit / just do not fit
 	for _, ex := range []int{0, 1} {
@@ -751,36 +803,80 @@ func c10DialCase(w *bufio.Writer, rep *c10Reporter, r *u.Rng, dist map[string]in
 	if err != nil {
 		return
 	}
-	e := &c10Expect{Name: name, Spec: sp, MaxPacket: 1280, HelloLen: -1}
-	c10Derive(r, sp, e, 1280)
+	maxPacket := int(r.Pick(1280, 1280, 1200, 1252))
+	e := &c10Expect{Name: name, Spec: sp, MaxPacket: maxPacket, HelloLen: -1}
+	c10Derive(r, sp, e, maxPacket)
 	ips := &sp.InitialPacketSpec
-	if r.Chance(1, 4) {
-		ips.InitPacketNumber = []uint64{1<<62 - 1, 1 << 62, 1<<64 - 1, 70000}[r.Intn(4)]
+	// boundary values of what dial must accept / refuse
+	switch r.Intn(8) {
+	case 0:
+		ips.InitPacketNumber = []uint64{1<<62 - 1, 1 << 62, 1<<64 - 1, 70000, 255, 256, 65535, 65536}[r.Intn(8)]
 		ips.InitialPackets = nil
+	case 1:
+		sp.UDPDatagramMinSize = int(r.Pick(-1, 1, 1199, 1200, 1400, 1453, 1500)) // simnet drops datagrams above 1400 bytes
+	case 2:
+		ips.InitialPackets = []quic.InitialPacketPlan{{PacketSize: int(r.Pick(1199, 1200, int64(maxPacket), int64(maxPacket)+1, 1400))}}
+		ips.FrameBuilder = nil
+	case 3:
+		ips.DestConnIDLength = int(r.Pick(0, 1, 7, 8, 20, 21))
+	case 4:
+		ips.SrcConnIDLength = int(r.Pick(0, 20, 21))
+	case 5:
+		ips.InitPacketNumberLengths = []quic.PacketNumberLen{quic.PacketNumberLen(r.Pick(1, 2, 4, 5, 0)), 2}
 	}
-	conf := &quic.Config{}
+	conf := &quic.Config{InitialPacketSize: uint16(maxPacket)}
 	if r.Chance(1, 4) {
 		tok := r.Bytes(r.Range(1, 30))
 		conf.TokenStore = &c10FixedTokenStore{tok}
 		e.ConfToken = tok
 	}
 	fl, err := c10Dial(sp, conf, true)
-	if err != nil || len(fl.Datagrams) == 0 {
-		rep.fail("upacker/dial/capture", fmt.Sprint("dial failed: ", err, " ", fl.DialErr), c10SpecString(sp))
+	if err != nil {
+		rep.fail("upacker/dial/capture", fmt.Sprint("dial failed: ", err), c10SpecString(sp))
 		return
 	}
-	want := int64(0)
-	if ips.InitPacketNumber <= 1<<62-1 {
-		want = int64(ips.InitPacketNumber)
+	// --- ValidateCase: what dial refuses ---
+	var lens []int64
+	for _, l := range ips.InitPacketNumberLengths {
+		lens = append(lens, int64(l))
 	}
+	var plans []string
+	for _, p := range ips.InitialPackets {
+		plans = append(plans, u.Pair(u.Z(int64(p.CryptoLength)), u.Z(int64(p.PacketSize))))
+	}
+	rejected := c10Rejected(fl)
+	fmt.Fprintf(w, "CASE 1 %s\n", u.App("ValidateCase",
+		u.Z(int64(ips.DestConnIDLength)), u.Z(int64(ips.SrcConnIDLength)), u.ZU(ips.InitPacketNumber), u.ZList(lens), u.Z(int64(ips.InitPacketNumberLength)),
+		u.Z(int64(sp.UDPDatagramMinSize)), u.List(plans), u.Z(int64(maxPacket)), u.B(rejected)))
+	dist["ValidateCase"]++
+	why := c10SpecInvalid(sp, maxPacket)
+	switch {
+	case why != "" && rejected:
+		dist["ValidateCase-rejected"]++
+		return
+	case why != "":
+		rep.fail("upacker/dial/not-rejected/"+why, fmt.Sprintf("the spec is not sendable (%s) but the dial sent %d datagram(s) instead of failing with an error (%q)", why, len(fl.Datagrams), fl.DialErr), c10SpecString(sp))
+		if len(fl.Datagrams) > 0 {
+			fails, _, _ := c10CheckFlight(e, fl.Datagrams)
+			for _, f := range fails {
+				rep.fail("upacker/dial/"+f.key, f.desc, c10SpecString(sp))
+			}
+		}
+		return
+	case rejected:
+		rep.fail("upacker/dial/spurious-reject", "the dial refused an acceptable spec: "+fl.DialErr, c10SpecString(sp))
+		return
+	}
+	if len(fl.Datagrams) == 0 {
+		rep.fail("upacker/dial/capture", "no datagram: "+fl.DialErr, c10SpecString(sp))
+		return
+	}
+	// --- DialCase: the first packet of an accepted spec ---
+	want := int64(ips.InitPacketNumber)
 	p, err := c10Open(fl.Datagrams[0], nil, -1, want)
 	if err != nil {
 		rep.fail("upacker/dial/decryptable", err.Error(), c10SpecString(sp))
 		return
-	}
-	var lens []int64
-	for _, l := range ips.InitPacketNumberLengths {
-		lens = append(lens, int64(l))
 	}
 	expl := "None"
 	if e.ExplTokSet {
@@ -813,7 +909,7 @@ func runUPacker(w *bufio.Writer, seed uint64, n int, args []string) {
 		c10RunCase(w, rep, c10GenCase(r.Fork()), dist)
 	}
 	w.Flush()
-	c10Child(w, "upacker/dial/crash", "upacker-dials", fmt.Sprint(r.U64()), fmt.Sprint(n/12+3))
+	c10Child(w, "upacker/dial/crash", "upacker-dials", fmt.Sprint(r.U64()), fmt.Sprint(n/8+8))
 	var ks []string
 	for k := range dist {
 		ks = append(ks, k)
@@ -834,5 +930,7 @@ func runUPackerDials(w *bufio.Writer, seed uint64, n int, _ []string) {
 		c10DialCase(w, rep, r.Fork(), dist)
 		w.Flush()
 	}
-	fmt.Fprintf(w, "DIST\tDialCase\t%d\n", dist["DialCase"])
+	for _, k := range []string{"DialCase", "ValidateCase", "ValidateCase-rejected"} {
+		fmt.Fprintf(w, "DIST\t%s\t%d\n", k, dist[k])
+	}
 }
